@@ -2012,6 +2012,11 @@ impl StorageEngine {
         let new_len = if let Some(stored_value) = shard_guard.data.get_mut(&key) {
             match &mut stored_value.value {
                 Value::String(bytes) => {
+                    // Nothing to write: the string stays as it is (it is not padded either)
+                    if value.is_empty() {
+                        return Ok(bytes.len());
+                    }
+                    
                     let required_len = offset + value.len();
                     if required_len > bytes.len() {
                         bytes.resize(required_len, 0);
@@ -2027,6 +2032,11 @@ impl StorageEngine {
                 _ => return Err(StorageError::WrongType.into()),
             }
         } else {
+            // Nothing to write: no key is created
+            if value.is_empty() {
+                return Ok(0);
+            }
+            
             // Create new string with padding
             let mut new_string = vec![0; offset + value.len()];
             new_string[offset..].copy_from_slice(&value);
